@@ -298,6 +298,25 @@ class _Noop:
         return None
 
 
+def _r123b(ctx: Ctx) -> None:
+    m = ctx.model
+    ci = m.cls('BatchSimulation')
+    fn = ci.methods.get('load_results')
+    ctx.need(fn is not None, 'R12.3', site_of(ci.module, ci.node), 'BatchSimulation.load_results not found')
+    calls = [n for n in ast.walk(fn) if isinstance(n, ast.Call) and isinstance(n.func, ast.Attribute)
+             and n.func.attr == 'load_results']
+    ok = len(calls) == 1 and len(calls[0].args) == 1 and ast.unparse(calls[0].args[0]) == 'self._output_file'
+    loops = [n for n in ast.walk(fn) if isinstance(n, ast.For) and ast.unparse(n.iter) in ('self._simulations', 'self')]
+    ctx.ob('R12.3', site_of(ci.module, fn), 'BatchSimulation.load_results loads every simulation from the output file', ok and
+           bool(loops), f'{[ast.unparse(c) for c in calls]}', key='BatchSimulation.load_results|file')
+    sf = ci.methods.get('save_file')
+    calls = [n for n in ast.walk(sf) if isinstance(n, ast.Call) and ast.unparse(n.func).endswith('save_json')] if sf else []
+    ok = bool(calls) and all(len(c.args) == 2 and ast.unparse(c.args[1]) == 'self._output_file' for c in calls)
+    ctx.ob('R12.3', site_of(ci.module, sf) if sf else site_of(ci.module, ci.node),
+           'save_file and load_results use the same path (self._output_file)', ok, f'{[ast.unparse(c) for c in calls]}',
+           key='BatchSimulation.save_file|file')
+
+
 def _r124(ctx: Ctx) -> None:
     m = ctx.model
     ci = m.cls('BatchSimulation')
@@ -435,5 +454,6 @@ def run(ctx: Ctx) -> None:
     _r121(ctx)
     _r122(ctx)
     _r123(ctx)
+    _r123b(ctx)
     _r124(ctx)
     _r125(ctx)
